@@ -9,6 +9,7 @@
 -/
 import ModVerif.Proofs.ClientLatestInv
 import ModVerif.Proofs.ClientAuth
+import ModVerif.Proofs.ClientHonest
 namespace ModVerif.Props.C01
 open ModVerif ModVerif.ClientLatest
 
@@ -182,6 +183,147 @@ example (answer : Bytes) :
   cases hp
   exact ⟨by decide, by simp [exParams, rootAt, exD, RFC6962.mth, RFC6962.mthF]⟩
 
+/-! ### the honest world -/
+
+/-- ★ **honest_never_fails.**  The honest world for a log `D` of fewer than `2^62` records (`Honest`): the configured key
+parses (`NewVerifier`), the server (`S.serve`) answers the lookup path of every module it has a record for with
+`id ‖ D[id] ‖ signed head of D containing id` (and other lookup paths with an error), and the path of every valid tile
+that exists in `D` with the tile's true bytes; tile height at most 30, at least one `ErrWriteConflict` retry.
+The environment is `honestEnv S`: a persistent cache that returns what was last written to a file, a configuration
+file updated by compare-and-swap; its initial state is ANY honest one (`HonestState`: the stored head is empty or a signed
+head of `D`; every cache file is the true bytes of a valid tile under that tile's key — possibly the full tile where a
+partial one will be asked for — or an honest lookup response under its lookup file: cold, warm, or partially warm cache).
+Then, after ANY sequence of earlier lookups on the same client (existing modules, unknown modules, malformed paths,
+excluded paths), `Lookup(path, vers)` of a module the server has a record for — not excluded by GONOSUMDB, escapable —
+succeeds and returns exactly the lines with the prefix `path vers ` of an honest response for that module: record
+`id = S.index(path)`, text `D[id]`, followed by a signed head of `D`.  No collision-freedom hypothesis. -/
+theorem honest_never_fails (P : Params H) (D : List Bytes) (S : Server) (stN : List H) (hon : Honest P D S stN)
+    (s0 : HState) (hs0 : HonestState P D S stN s0) (earlier : List (Bytes × Bytes))
+    (path vers epath evers : Bytes) (id : Nat)
+    (hskip : Module.matchPrefixPatterns P.glob P.nosumdb path = false)
+    (hep : Module.escapePath path = .ok epath) (hev : Module.escapeVersion P.isLetter (trimGoMod vers) = .ok evers)
+    (hidx : S.index (B "/lookup/" ++ (epath ++ ([64] ++ evers))) = some id) :
+    let w := runLookups P (honestEnv S) ⟨s0, newClient P, []⟩ earlier
+    ∃ d, HonestLookup P D S (B "/lookup/" ++ (epath ++ ([64] ++ evers))) d ∧
+      (lookup P (honestEnv S) w path vers).1 = .ok (filterLines (path ++ [32] ++ vers ++ [32]) d) := by
+  intro w
+  have hw : HI P D S stN w := hi_runLookups P D S stN hon earlier _ (hi_newClient P D S stN s0 hs0)
+  exact (lookup_honest P D S stN hon w hw path vers).2 epath evers id hskip hep hev hidx
+
+omit [DecidableEq H] in
+/-- … and what an honest response is: its record is record `id` of `D`, so the returned lines are the lines of
+`id ‖ D[id] ‖ head` with the prefix (the server's lines; O3 for the head part). -/
+theorem honestLookup_record (P : Params H) (D : List Bytes) (S : Server) (p d : Bytes) (id : Nat)
+    (h : HonestLookup P D S p d) (hidx : S.index p = some id) :
+    ∃ text head n, TlogNote.parseRecord d = some ((id : Int), text, head) ∧ D[id]? = some text ∧ id < n ∧
+      Signed P D S head n := by
+  obtain ⟨id', n, head, text, h1, h2, h3, h4, h5⟩ := h
+  have := h5 id hidx
+  subst this
+  exact ⟨text, head, n, h4, h3, h1, h2⟩
+
 end sequential
+
+/-! ### non-vacuity of `honest_never_fails`: a concrete honest world (one record, one-byte toy hashes, a key file that
+`NewVerifier` accepts, a signed head that `note.Open` accepts — all evaluated by the kernel) -/
+
+namespace HonestExample
+open ModVerif.Client ModVerif.Tile
+
+def hText : Bytes := B "example.com/m v1.0.0 h1:abc=\n"
+def hD : List Bytes := [hText]
+def hP : Params UInt8 :=
+  { leaf := fun _ => 7, node := fun a b => a + b, empty := 0, hashSize := 1, dec := fun b => b.headD 0, enc := fun h => [h],
+    height := 2, nosumdb := [], isLetter := fun _ => false, glob := fun _ _ => false, sha := fun _ => [0, 0, 0, 0],
+    edVerify := fun _ _ _ => true, retries := 1 }
+def hKeyFile : Bytes := B "k+00000000+AQAAAAAAAAAAAAAAAAAAAAAAAAAAAAAAAAAAAAAAAAAA\n"
+def hV : Note.Verifier :=
+  match Note.NewVerifier hP.sha hP.edVerify (GoStrings.trimSpace hKeyFile) with
+  | .ok v => v
+  | .error _ => ⟨[], 0, fun _ _ => false⟩
+def hHead : Bytes := TlogNote.formatTree ⟨1, 7 :: List.replicate 31 0⟩ ++ [10] ++ Note.sigLine (B "k") (B "AAAAAAE=")
+def hResp : Bytes := B "0\n" ++ hText ++ [10] ++ hHead
+def hRest : Bytes := B "example.com/m" ++ ([64] ++ B "v1.0.0")
+def hPath : Bytes := B "/lookup/" ++ hRest
+def hS : Server :=
+  { keyFile := hKeyFile, v := hV,
+    serve := fun p => if p = hPath then some hResp else if isPrefixOfB (B "/lookup/") p then none else some [7],
+    index := fun p => if p = hPath then some 0 else none }
+
+theorem hkey_ok : Note.NewVerifier hP.sha hP.edVerify (GoStrings.trimSpace hKeyFile) = .ok hV := by
+  have h : (match Note.NewVerifier hP.sha hP.edVerify (GoStrings.trimSpace hKeyFile) with
+      | .ok _ => true | .error _ => false) = true := by decide +kernel
+  unfold hV
+  cases hn : Note.NewVerifier hP.sha hP.edVerify (GoStrings.trimSpace hKeyFile) with
+  | ok v => rfl
+  | error e => rw [hn] at h; cases h
+
+theorem hsigned : Signed hP hD hS hHead 1 := by
+  have h : (match openTree hP [hV] hHead with | .ok t => t.n == 1 && t.hash == 7 | .error _ => false) = true := by
+    decide +kernel
+  refine ⟨?_, by decide⟩
+  show openTree hP [hV] hHead = .ok ⟨1, rootAt hP hD 1⟩
+  have hr : rootAt hP hD 1 = 7 := by simp [rootAt, hD, hP, RFC6962.mth, RFC6962.mthF]
+  rw [hr]
+  cases ho : openTree hP [hV] hHead with
+  | error e => rw [ho] at h; cases h
+  | ok t =>
+    rw [ho] at h
+    simp only [Bool.and_eq_true, beq_iff_eq] at h
+    obtain ⟨tn, th⟩ := t
+    simp only at h
+    rw [h.1, h.2]
+
+theorem hlookup : HonestLookup hP hD hS hPath hResp := by
+  refine ⟨0, 1, hHead, hText, by decide, hsigned, rfl, ?_, ?_⟩
+  · have h : (TlogNote.parseRecord hResp == some (0, hText, hHead)) = true := by decide +kernel
+    simpa using h
+  · intro id' h
+    simp only [hS, if_true] at h
+    cases h; rfl
+
+theorem honest_example : Honest hP hD hS [7] := by
+  refine ⟨by decide, by decide +kernel, by decide, by decide, by decide, hkey_ok, ?_, ?_, ?_⟩
+  · intro t x ht hx
+    obtain ⟨hx1, hw1⟩ := trueTile_single 7 t ht x hx
+    subst hx1
+    refine ⟨[7], ?_, by decide, by rw [hw1]; rfl⟩
+    have hne : tileRemotePath t ≠ hPath := by
+      intro h
+      unfold tileRemotePath tilePath hPath at h
+      rw [B_tile, B_lookup] at h
+      simp at h
+    have hnp : isPrefixOfB (B "/lookup/") (tileRemotePath t) = false := by
+      unfold tileRemotePath tilePath
+      rw [B_tile, B_lookup]
+      simp [isPrefixOfB]
+    simp only [hS, hne, if_false, hnp, Bool.false_eq_true]
+  · intro rest id h
+    simp only [hS] at h ⊢
+    split at h
+    · rename_i heq
+      rw [heq]
+      simp only [if_true]
+      exact ⟨hResp, rfl, hlookup⟩
+    · cases h
+  · intro rest h
+    simp only [hS] at h ⊢
+    split at h
+    · cases h
+    · rename_i hne
+      simp only [hne, if_false, Client.isPrefixOfB_append, if_true]
+
+/-- the hypotheses of `honest_never_fails` are satisfiable (cold cache, empty configuration), and on this instance the
+    theorem's conclusion is the lookup of `example.com/m v1.0.0` returning the record's line -/
+example : Honest hP hD hS [7] ∧ HonestState hP hD hS [7] ⟨[], []⟩ ∧
+    Module.matchPrefixPatterns hP.glob hP.nosumdb (B "example.com/m") = false ∧
+    Module.escapePath (B "example.com/m") = .ok (B "example.com/m") ∧
+    Module.escapeVersion hP.isLetter (trimGoMod (B "v1.0.0")) = .ok (B "v1.0.0") ∧
+    hS.index (B "/lookup/" ++ (B "example.com/m" ++ ([64] ++ B "v1.0.0"))) = some 0 := by
+  refine ⟨honest_example, ⟨Or.inl rfl, by intro f d h; simp at h⟩, by decide +kernel, by decide +kernel, by decide +kernel, ?_⟩
+  simp [hS, hPath, hRest]
+
+
+end HonestExample
 
 end ModVerif.Props.C01
